@@ -6,3 +6,8 @@ import "context"
 func VerifC35OnStressLevelUpdate(s *StressRelief, peerID string, level uint) {
 	s.onStressLevelUpdate(context.Background(), newStressReliefMessage(level, peerID).String())
 }
+
+// VerifC35NoMonitorLoop makes Start() skip its own monitor goroutine (the repository's test switch
+// disableStressLevelReport), so that the harness thread that calls Recalc is Recalc's ONLY caller - as the
+// monitor goroutine is in Refinery. Call before Start().
+func VerifC35NoMonitorLoop(s *StressRelief) { s.disableStressLevelReport = true }
